@@ -16,6 +16,9 @@
 (* next(source_) has completed (the abandoned next is awaited).            *)
 (***************************************************************************)
 EXTENDS Naturals, TLC
+CONSTANT Mut     \* "none" = the protocol as written; spec-level mutations (must violate the properties: they are not vacuous):
+                 \* "hs_store"  handle_signal stores source_next_completed without compare-exchange
+                 \* "cl_ignore" cleanup start() ignores a failed compare-exchange to cleanup_requested
 VARIABLES state, pcC, pcS, pcK, oldC, oldS, oldK, recvPresent, delivered, deliveredDone, srcDone, cleanupStarts, cbRegistered, cbRunning
 vars == <<state, pcC, pcS, pcK, oldC, oldS, oldK, recvPresent, delivered, deliveredDone, srcDone, cleanupStarts, cbRegistered, cbRunning>>
 Init == /\ state = "active" /\ pcC = "c0" /\ pcS = "s0" /\ pcK = "k0"
@@ -27,12 +30,12 @@ C0 == /\ pcC = "c0" /\ srcDone' = TRUE /\ oldC' = state /\ pcC' = "c1"          
       /\ UNCHANGED <<state, pcS, pcK, oldS, oldK, recvPresent, delivered, deliveredDone, cleanupStarts, cbRegistered, cbRunning>>
 C1 == /\ pcC = "c1"
       /\ IF oldC = "active"
-         THEN IF state = "active" THEN state' = "completed" /\ pcC' = "cdeliver" /\ oldC' = oldC
+         THEN IF state = "active" \/ Mut = "hs_store" THEN state' = "completed" /\ pcC' = "cdeliver" /\ oldC' = oldC
               ELSE state' = state /\ oldC' = state /\ pcC' = "c2"
          ELSE state' = state /\ oldC' = oldC /\ pcC' = "c2"
       /\ UNCHANGED <<pcS, pcK, oldS, oldK, recvPresent, delivered, deliveredDone, srcDone, cleanupStarts, cbRegistered, cbRunning>>
 \* deliver to the consumer: concrete_receiver destroys the stop callback first, which waits for a running callback
-CDeliver == /\ pcC = "cdeliver" /\ ~cbRunning /\ recvPresent
+CDeliver == /\ pcC = "cdeliver" /\ ~cbRunning /\ Assert(recvPresent, "handle_signal: receiver already taken")
             /\ cbRegistered' = FALSE /\ recvPresent' = FALSE /\ delivered' = delivered + 1 /\ pcC' = "done"
             /\ UNCHANGED <<state, pcS, pcK, oldC, oldS, oldK, deliveredDone, srcDone, cleanupStarts, cbRunning>>
 C2 == /\ pcC = "c2"
@@ -63,6 +66,7 @@ K0 == /\ pcK = "k0" /\ delivered = 1 /\ oldK' = state /\ pcK' = "k1"
 K1 == /\ pcK = "k1"
       /\ IF oldK = "stopped"
          THEN IF state = "stopped" THEN state' = "cleanup_requested" /\ pcK' = "done" /\ oldK' = oldK
+              ELSE IF Mut = "cl_ignore" THEN state' = state /\ oldK' = oldK /\ pcK' = "done"
               ELSE state' = state /\ oldK' = state /\ pcK' = "k2"
          ELSE state' = state /\ oldK' = oldK /\ pcK' = "k2"
       /\ UNCHANGED <<pcC, pcS, oldC, oldS, recvPresent, delivered, deliveredDone, srcDone, cleanupStarts, cbRegistered, cbRunning>>
